@@ -25,6 +25,10 @@ CLAIMED = {
             "Kernel-checked theorems: (a) for every position-ordered well-formed token list with any assignment of range flags, serialising mappings+rangeMappings and decoding again returns the deduplicated tokens in wire normal form, in particular exactly the same range flags (c01_mappings_roundtrip, c07_flags_roundtrip; unbounded tokens per line and lines); (b) the 6-bit bitfield codec is the identity on every index (c07_rmi_codec); (c) lookup on the token's own line reports the original column advanced by the distance (saturating), any other lookup the token's own column, and lookup never panics (c07_lookup_same_line/other, c04_lookup_safe). Tied to the code by a differential run: every subset of flags on lines of <= 6 tokens, long lines with flags at 0/15/16/17/31/32/last, duplicates before range tokens, several lines with gaps, lookups on/after/below the token.",
             "Trusted: Lean kernel, models lean/SmVerif/Model/{Mappings,Lookup,V3Spec}.lean, harness/driver; bitvec Lsb0 load/store_le on a little-endian target; tokens reach SourceMap::new ordered whenever positions repeat. Four defects found by this property (F3-F6) were repaired in /repo; their witnesses stay in the corpus.",
             "Lean 4 proof (lock-step induction over encoder and decoder) + exhaustive small-scope differential correspondence"),
+    "C20": ("7/C20",
+            "Kernel-checked theorems over the model of the indexed RAM bundle reader (IndexedRamBundle::parse, startup_code, get_module, the module iterator, is_ram_bundle_slice on top of scroll's Pread bounds rules): for every image that satisfies a layout predicate (header fields, startup code behind the table, every present module's bytes + NUL somewhere in the data area - any physical order, gaps allowed) parsing reports the written count and startup code, every present module without its NUL, nothing for empty slots, an index error past the table, and the iterator yields the present modules in id order (c20_*_layout); the model's own writer is an instance (c20_parse_serialize, c20_get_module, c20_past_table, c20_iter). For every byte string recognition holds iff 12 bytes with the regenerated magic lead, parsing succeeds iff recognised, every access returns a value or one of four refusals and every returned slice is a window of the buffer (c20_recognise, c20_parse_iff, c20_parse_refused, c20_total, c20_in_bounds). Tied to the code by a differential run: exhaustive small bundles in every physical order, truncation at every length, every header/table byte corrupted, fields at/around the buffer end and near 2^31/2^32, random bundles and bytes.",
+            "Trusted: Lean kernel, model lean/SmVerif/Model/RamBundle.lean (scroll 0.10 bounds rules: BadOffset when offset >= len, TooBig when size > remaining; little-endian reads), harness/driver; RAM_BUNDLE_MAGIC regenerated from ram_bundle.rs on every run. Memory safety itself is Rust's (safe code + scroll); the theorems are about returned values. 64-bit usize. An empty startup code at the very end of the buffer is refused (outside the property: it demands non-empty startup code). Unbundle-to-filesystem and the file-RAM-bundle variant are not modelled.",
+            "Lean 4 proof (layout predicate, list lemmas) + regenerated constant + exhaustive small-scope differential correspondence"),
 }
 
 PENDING_REASON = "not claimed yet: model/theorems for this property are still being built (see DESIGN.md section 7); no check is registered rather than registering an unsound one"
